@@ -138,7 +138,10 @@ impl PackSizer {
             // The cast actually shouldn't pose any problems.
             // `current_size` is `u64`, the maximum value is `2^64-1`.
             // `isqrt(2^64-1) = 2^32-1` which fits into a `u32`. (@aawsome)
-            self.current_size.integer_sqrt() as u32 * self.grow_factor + self.default_size
+            // Compute in `u64`: large grow factors or default sizes must not overflow.
+            let size = self.current_size.integer_sqrt() * u64::from(self.grow_factor)
+                + u64::from(self.default_size);
+            size.min(u64::from(u32::MAX)) as u32
         };
         size.min(self.size_limit).min(constants::MAX_SIZE)
     }
